@@ -683,6 +683,10 @@ func (root *Root) resolveReflect(
 	t Type) (value interface{}, ea []error) {
 
 	ov := reflect.ValueOf(obj)
+	if !ov.IsValid() {
+		// Nothing to reflect on, a Root created without a root object.
+		return nil, []error{resWarn(field.line, field.col, "can not resolve %s on a nil object", field.Name)}
+	}
 	var fd *FieldDef
 	var err error
 TOP:
